@@ -5,4 +5,5 @@ CONSTANTS
 INVARIANT InvTolerance
 INVARIANT InvReturns
 INVARIANT InvRepFree
+INVARIANT InvLevelFree
 CHECK_DEADLOCK FALSE
